@@ -405,7 +405,13 @@ func getPeerNsNameFormat(peer Peer) string {
 // isPeerFocusWorkload returns true if focus-workload flag is not used (each peer is included),
 // or if the focus-workload is equal to peer's name
 func (ca *ConnlistAnalyzer) isPeerFocusWorkload(peer Peer) bool {
-	return ca.focusWorkload == "" || peer.Name() == ca.focusWorkload || getPeerNsNameFormat(peer) == ca.focusWorkload
+	if ca.focusWorkload == "" {
+		return true
+	}
+	if peer.IsPeerIPType() { // an ip-block has no name or namespace (its <ns>/<name> form would be "/"): never a focus workload
+		return false
+	}
+	return peer.Name() == ca.focusWorkload || getPeerNsNameFormat(peer) == ca.focusWorkload
 }
 
 func convertEvalPeersToConnlistPeer(peers []eval.Peer) []Peer {
